@@ -105,3 +105,6 @@ HX int h_round(int kind, double re, double im, double* out) {
     }
     H_END
 }
+
+// norm(x, p) for a general p (real / complex data)
+HX double h_normp(int cplx, int p, const double* x, int n) { return cplx ? norm(mk_cmplx(x, n), p) : norm(mk_real(x, n), p); }
